@@ -151,6 +151,32 @@ def run_plain(case, root, viol, cnt):
                     return
         except (E.FlowIREnvironmentUnknown, E.FlowIRPlatformUnknown):
             pass
+        # ... and so must the command line of every component: the package as parametrised by the same platform and user
+        # variable files (configuration level, nothing stored) versus the instance it was turned into
+        try:
+            import experiment.model.conf as C
+            cf = C.ExperimentConfigurationFactory.configurationForExperiment(
+                path, platform=pkg.get('platform'), createInstanceFiles=False, primitive=True,
+                variable_files=list(vpaths), updateInstanceFiles=False)
+            cconc = cf.get_flowir_concrete(return_copy=False)  # the description as written, variables bound late
+            iconc = exp.experimentGraph.configuration.get_flowir_concrete(return_copy=False)
+            for cid in sorted(cconc.get_component_identifiers(recompute=True)):
+                try:
+                    a = cconc.get_component_configuration(cid, raw=False, include_default=True)['command'].get('arguments')
+                    b = iconc.get_component_configuration(cid, raw=False, include_default=True)['command'].get('arguments')
+                except Exception:
+                    continue
+                cnt['probe.package_vs_instance_command_lines'] = cnt.get('probe.package_vs_instance_command_lines', 0) + 1
+                if a != b and '/' not in str(a) + str(b):  # (references resolve to instance paths: not compared here)
+                    derived = 'UV[' in str(a) and any(t.endswith('-two') for t in (str(a) + ' ' + str(b)).split())
+                    viol.append({'property': 'C07',
+                                 'sig': 'store:command-line-of-the-instance-differs-from-the-package%s' % (
+                                     '[global-derived-from-an-overridden-variable]' if derived else ''),
+                                 'detail': {'component': list(cid), 'platform': pkg.get('platform'), 'package': a, 'instance': b,
+                                            'variable_files': pkg.get('variable_files')}})
+                    return
+        except (E.ExperimentInvalidConfigurationError, E.FlowIRConfigurationErrors):
+            pass
     except (E.ExperimentInvalidConfigurationError, E.FlowIRConfigurationErrors, E.UnusedDataReferenceError,
             E.UndeclaredDataReferenceError) as e:
         # the loader or the validation rejects the generated package (the textual replica rewrite and the textual
